@@ -1,0 +1,22 @@
+//! Verification hooks (feature `verif_hooks`, off by default): a replaceable process-global
+//! callback invoked at the synchronisation points of `parallel.rs`. Without the feature
+//! nothing of this is compiled.
+use std::sync::{Arc, RwLock};
+
+pub type Hook = Arc<dyn Fn(&'static str, bool) + Send + Sync>;
+
+static HOOK: RwLock<Option<Hook>> = RwLock::new(None);
+
+/// Installs (or removes) the callback. `point` names the synchronisation point, `after` is
+/// false immediately before and true immediately after the operation.
+pub fn set_hook(h: Option<Hook>) {
+    *HOOK.write().unwrap() = h;
+}
+
+#[inline]
+pub fn at(point: &'static str, after: bool) {
+    let h = HOOK.read().unwrap().clone();
+    if let Some(h) = h {
+        h(point, after)
+    }
+}
